@@ -35,6 +35,8 @@ def gen(seed, idx, tier):
         # life cycle: the run is continued from its own file - the Solution read back supplies both
         # the seed state and the options object, exactly as the file recorded them
         scn["reload_phase"] = {"steps": rnd.randint(2, 6)}
+    if rnd.random() < 0.15 and not scn.get("reload_phase"):
+        scen.in_metres(scn)  # which sites belong to a terminal must not depend on the size of the numbers
     return scen.maybe_restored(rnd, scen.maybe_sibling(rnd, scen.maybe_solve_twice(rnd, scn)))
 
 
